@@ -16,15 +16,18 @@ TECHNIQUE = "structural oracles over the real LogRevision sequence (model ancest
 LEVEL_TEXT = ("held on the generated histories for every request the generator produced; "
               "ranges are mainline ranges and single mainline revisions; per-file requests compare only the set of mainline revisions")
 RULE = ("case = one generated history (quick <= 9 revisions, thorough <= 24; <= 3 branches; 2a / pack-0.92); requests = direction x levels{0,1} x "
-        "limit x mainline range (by revno spec, by revid, one-sided, single revision) x file filter x _match_using_deltas; "
+        "limit (also with levels 2/3 and omit_merges) x mainline range (by revno spec, by revid, one-sided, single revision) x file filter x _match_using_deltas; "
+        "every 4th case instead = a linear history of 14-22 (thorough -40) revisions with two files edited / renamed at random places (log batch boundaries); "
         "one evaluation = one request judged; non-trivial = the subject branch has merged revisions; distinct = (request shape, result shape)")
 CASES = {"quick": 64, "thorough": 900}
 BUDGET_S = {"quick": 30, "thorough": 780}
 MIN_EVALS = {"quick": 600, "thorough": 40000}
 FLOORS = {"quick": {"full_log": 15, "forward_vs_reverse": 15, "levels1": 30, "limit": 60, "range_levels0": 60, "range_levels1": 60,
-                    "single_revision": 30, "file_mainline_sets": 12},
+                    "single_revision": 30, "file_mainline_sets": 12, "linear_rename_history": 4, "linear_file_log": 60,
+                    "limit_with_filter_that_drops": 40, "filtered_listing": 100},
           "thorough": {"full_log": 800, "forward_vs_reverse": 800, "levels1": 1600, "limit": 4000, "range_levels0": 4000,
-                       "range_levels1": 4000, "single_revision": 2000, "file_mainline_sets": 3000}}
+                       "range_levels1": 4000, "single_revision": 2000, "file_mainline_sets": 3000, "linear_rename_history": 100,
+                       "linear_file_log": 1500, "limit_with_filter_that_drops": 2000, "filtered_listing": 6000, "depth2_history": 50}}
 EXHAUSTIVE = {"quick": False, "thorough": False}
 ASSUMPTIONS = [
     "revno strings are compared with Branch.get_revision_id_to_revno_map() (judged by C22)",
@@ -205,6 +208,39 @@ class Judge:
                     if got != base[:k]:
                         self.fail("limit:not-a-prefix-of-unlimited", "%s levels=%d limit=%d: %r, unlimited prefix %r" % (
                             direction, levels, k, got[:6], base[:k][:6]), limit=k, direction=direction, levels=levels)
+
+        # limit together with filters that drop revisions after generation: deeper levels, omit_merges.
+        # reference for the unlimited listing = the full listing filtered by depth / by number of recorded parents
+        maxdepth = max([d for _r, _n, d in self.rev_full] or [0])
+        if maxdepth >= 2:
+            self.ctx.count("depth2_history")
+        for direction in ("reverse", "forward"):
+            full = self.rev_full if direction == "reverse" else self.fwd_full
+            reqs = []
+            for levels in (2, 3):
+                reqs.append(({"levels": levels}, [x for x in full if x[2] < levels], "levels=%d" % levels))
+            for levels in (0, 1, 2):
+                want = [x for x in full if len(self.g.P[x[0]]) <= 1 and (levels == 0 or x[2] < levels)]
+                reqs.append(({"levels": levels, "omit_merges": True}, want, "levels=%d omit_merges" % levels))
+            for kw, want, label in reqs:
+                base = run_log(self.b, direction=direction, **kw)
+                self.ctx.count("filtered_listing")
+                self.ev(("filtered", direction, label), base)
+                dropped = len(full) - len(base)
+                if base != want:
+                    self.fail("filtered:%s:not-the-full-listing-filtered" % ("omit_merges" if "omit_merges" in kw else "levels"),
+                              "%s %s: %r, full listing filtered %r" % (direction, label, base[:8], want[:8]), request=label)
+                    continue
+                for k in sorted({1, 2, rng.randint(1, max(1, len(base))), max(1, len(base) - 1), len(base)}):
+                    got = run_log(self.b, direction=direction, limit=k, **kw)
+                    self.ctx.count("limit")
+                    if dropped:
+                        self.ctx.count("limit_with_filter_that_drops")
+                    self.ev(("limit-filtered", direction, label, min(k, 3), dropped > 0), got)
+                    if got != base[:k]:
+                        self.fail("limit:counted-before-%s-filter" % ("omit_merges" if "omit_merges" in kw else "levels"),
+                                  "%s %s limit=%d: %r, unlimited prefix %r" % (direction, label, k, got[:6], base[:k][:6]),
+                                  limit=k, direction=direction, request=label)
 
     # ------------------------------------------------------------ ranges
     def info(self, r, how):
@@ -467,7 +503,127 @@ class Judge:
                     self.fail("limit:applied-before-file-filter", "%r limit=%d: %r, filtered prefix %r" % (path, k, lim, base[1][:k]))
 
 
+def linear_renames(ctx):
+    """Long linear history in which the logged files are edited and renamed (name / directory) at random places, so that
+    renames fall on both sides of the log's batch boundaries (9, 13, 19 ... revisions, newest first): tree-comparison
+    matching has to carry the path set across batches.  In a linear history with only file renames (the file's own name or
+    parent id changes, so every rename is a version) both matchers must list exactly the file's versions."""
+    import os
+
+    from vf.gen import make_tree
+
+    rng = ctx.rng
+    fmt = "2a" if ctx.index % 2 else "pack-0.92"
+    root = ctx.tmp("lin")
+    wt = make_tree(os.path.join(root, "t"), fmt)
+    base = wt.basedir
+    os.mkdir(os.path.join(base, "d"))
+    os.mkdir(os.path.join(base, "e"))
+    tracked = {b"id-a": "a", b"id-b": "d/b"}
+    for fid, p in tracked.items():
+        with open(os.path.join(base, p), "wb") as f:
+            f.write(b"start %s\n" % fid)
+    with open(os.path.join(base, "noise"), "wb") as f:
+        f.write(b"0\n")
+    wt.add(["d", "e", "a", "d/b", "noise"], ids=[b"id-d", b"id-e", b"id-a", b"id-b", b"id-noise"])
+    n = rng.randint(14, 22) if ctx.tier == "quick" else rng.randint(14, 40)
+    # make sure a rename sits in the newest batch and an edit under the old name in an older one
+    forced = {n - rng.randint(1, 7): ("rename", b"id-a"), rng.randint(2, max(2, n - 11)): ("edit", b"id-a")}
+    revs, touched = [], {fid: set() for fid in tracked}
+    # disjoint name pools: a path never holds two different file ids (tree comparison follows paths, see files())
+    names = {b"id-a": ["a", "a2", "a c.txt", "x y"], b"id-b": ["b", "b2", "b.h", "zz"]}
+    for i in range(1, n + 1):
+        rid = b"lin-%d" % i
+        if i > 1:
+            acts = [forced[i]] if i in forced else []
+            for fid in sorted(tracked):
+                k = rng.random()
+                if k < 0.22:
+                    acts.append(("edit", fid))
+                elif k < 0.34:
+                    acts.append(("rename", fid))
+            for what, fid in acts:
+                p = tracked[fid]
+                if what == "edit":
+                    with open(os.path.join(base, p), "ab") as f:
+                        f.write(b"edit %d\n" % i)
+                    touched[fid].add(rid)
+                else:
+                    for _ in range(8):
+                        d = rng.choice(["", "d/", "e/"])
+                        q = d + rng.choice(names[fid])
+                        if q != p and not os.path.lexists(os.path.join(base, q)):
+                            wt.rename_one(p, q)
+                            tracked[fid] = q
+                            touched[fid].add(rid)
+                            break
+            with open(os.path.join(base, "noise"), "ab") as f:
+                f.write(b"%d\n" % i)
+        else:
+            for fid in tracked:
+                touched[fid].add(rid)
+        wt.commit("linear %d" % i, rev_id=rid, timestamp=1500000000 + i, timezone=0, committer="L <l@example.com>")
+        revs.append(rid)
+    ctx.hist("linear:revisions", n)
+    b = wt.branch
+    with b.lock_read():
+        repo = b.repository
+        for fid in sorted(tracked):
+            path = tracked[fid]
+            # versions from the recorded inventories (the workload's own bookkeeping must agree: plain data)
+            versions = set()
+            for r in revs:
+                t = repo.revision_tree(r)
+                if t.get_file_revision(t.id2path(fid)) == r:
+                    versions.add(r)
+            if versions != touched[fid]:
+                ctx.fail("linear:recorded-versions-differ-from-edits", "%r: versions %r, edited/renamed in %r" % (path, sorted(versions), sorted(touched[fid])))
+                return
+            want = {"reverse": [r for r in revs[::-1] if r in versions], "forward": [r for r in revs if r in versions]}
+            for deltas in (False, True):
+                which = "delta" if deltas else "graph"
+                for levels in (0, 1):
+                    for direction in ("reverse", "forward"):
+                        ctx.count("linear_file_log")
+                        try:
+                            got = [r for r, _n, _d in run_log(b, direction=direction, levels=levels, specific_files=[path], _match_using_deltas=deltas)]
+                        except Exception as e:  # noqa: BLE001
+                            ctx.fail("linear:file:%s:%s:raises-%s" % (which, direction, type(e).__name__), "log of %r raised %r" % (path, e),
+                                     {"format": fmt, "revisions": n, "versions": sorted(v.decode() for v in versions)})
+                            continue
+                        renamed_across = len(versions) > 0
+                        ctx.note(("linear", which, direction, levels, len(got) == len(versions)), nontrivial=renamed_across)
+                        if got != want[direction]:
+                            missing = [r.decode() for r in want[direction] if r not in got]
+                            extra = [r.decode() for r in got if r not in versions]
+                            key = "linear:file:%s:%s:%s" % (which, direction, "loses-revisions-of-renamed-file" if missing and not extra else "wrong-revisions")
+                            ctx.fail(key, "%r (%s matching, %s, levels=%d, %d revisions): missing %r extra %r" % (path, which, direction, levels, n, missing, extra),
+                                     {"format": fmt, "revisions": n, "path": path, "file_id": fid.decode(), "versions": sorted(v.decode() for v in versions),
+                                      "got": [r.decode() for r in got]})
+                        elif direction == "reverse" and got:
+                            k = rng.randint(1, len(got))
+                            lim = [r for r, _n, _d in run_log(b, direction=direction, levels=levels, specific_files=[path], _match_using_deltas=deltas, limit=k)]
+                            ctx.count("limit")
+                            if lim != got[:k]:
+                                ctx.fail("limit:applied-before-file-filter", "%r %s limit=%d: %r vs %r" % (path, which, k, lim, got[:k]))
+        # two paths at once (always tree comparison)
+        both = sorted(tracked.values())
+        allv = set().union(*touched.values())
+        ctx.count("linear_file_log")
+        try:
+            got = [r for r, _n, _d in run_log(b, direction="reverse", levels=0, specific_files=both, _match_using_deltas=True)]
+        except Exception as e:  # noqa: BLE001
+            ctx.fail("linear:file:delta:reverse:raises-%s" % type(e).__name__, "log of %r raised %r" % (both, e))
+        else:
+            if got != [r for r in revs[::-1] if r in allv]:
+                ctx.fail("linear:file:delta:two-paths:wrong-revisions", "%r: %r, wanted %r" % (both, got, [r for r in revs[::-1] if r in allv]))
+
+
 def case(ctx):
+    if ctx.index % 4 == 1:
+        ctx.count("linear_rename_history")
+        linear_renames(ctx)
+        return
     from breezy.branch import Branch
 
     rng = ctx.rng
